@@ -237,6 +237,8 @@ func c16Layout(r *Rng) string {
 	return sb.String()
 }
 
+var c16ViaBlocks bool // execute through ExecuteBlocks (block "b") instead of Execute
+
 type c16Obs struct {
 	err     *pongo2.Error
 	phase   string
@@ -259,7 +261,11 @@ func c16RunProg(files map[string]string, src string, ctx pongo2.Context) c16Obs 
 		}
 		return c16Obs{err: pe, phase: "compile"}
 	}
-	_, err = tpl.Execute(ctx)
+	if c16ViaBlocks {
+		_, err = tpl.ExecuteBlocks(ctx, []string{"b"})
+	} else {
+		_, err = tpl.Execute(ctx)
+	}
 	if err != nil {
 		pe, ok := err.(*pongo2.Error)
 		if !ok {
@@ -347,7 +353,7 @@ func c16RunProgram(c *C) {
 	}
 	body := prefix + b.src + suffix
 	ctx := c16Ctx()
-	route := r.Intn(5)
+	route := r.Intn(7)
 	var files map[string]string
 	src := body
 	sources := map[string]string{}
@@ -360,6 +366,14 @@ func c16RunProgram(c *C) {
 	case 3: // inside an extended parent's block / the parent itself
 		files = map[string]string{"/main.tpl": "{% extends \"base.tpl\" %}{% block b %}child{% endblock %}", "/base.tpl": c16Layout(r) + "{% block b %}x{% endblock %}" + body}
 		src = ""
+	case 5, 6: // inside a block of a child template (5: Execute, 6: ExecuteBlocks); base and child differ in every line
+		files = map[string]string{"/main.tpl": "{% extends \"base.tpl\" %}" + c16Layout(r) + "{% block b %}" + body + "{% endblock %}", "/base.tpl": "base line 1\nbase line 2 " + c16Layout(r) + "{% block b %}x{% endblock %}" + c16Layout(r)}
+		src = ""
+		if strings.Contains(b.src, "{% macro") || strings.Contains(b.src, "{% block") || strings.Contains(b.src, "{% extends") {
+			files = nil
+			src = body
+			sources["<string>"] = body
+		}
 	default: // inside an imported macro file / a macro body executed by the importer
 		files = map[string]string{"/main.tpl": c16Layout(r) + "{% import \"lib.tpl\" mm %}{{ mm() }}", "/lib.tpl": "{% macro mm() export %}" + body + "{% endmacro %}"}
 		src = ""
@@ -372,7 +386,9 @@ func c16RunProgram(c *C) {
 	for k, v := range files {
 		sources[k] = v
 	}
+	c16ViaBlocks = route == 6
 	o := c16RunProg(files, src, ctx)
+	c16ViaBlocks = false
 	c.Eval(1)
 	if o.phase == "none" {
 		// some broken constructs are swallowed by the layout (e.g. inside an unclosed comment): not judged
